@@ -1982,25 +1982,25 @@ func TestVerifC19(t *testing.T) {
 // Listener.packetInput, interleaved with a genuine peer's traffic.
 
 type frameC05 struct {
-	cfg     frameCfg
-	res     *frameResult
-	rng     *vrng
-	ciph    frameCipher
-	key     []byte
-	framer  BlockCrypt
-	hub     *frameHub
-	path    string
-	conv    uint32
-	d, p    int // the (initial) shape of the target's decoder: FEC off => the lazy 1+1
-	group   uint64
-	target  *UDPSession // path 1
-	lis     *Listener   // paths 2, 3
-	peer    *UDPSession
-	oobMu   sync.Mutex
-	oobGot  [][]byte
-	lines   []string
-	capPos  int
-	feeds   int
+	cfg    frameCfg
+	res    *frameResult
+	rng    *vrng
+	ciph   frameCipher
+	key    []byte
+	framer BlockCrypt
+	hub    *frameHub
+	path   string
+	conv   uint32
+	d, p   int // the (initial) shape of the target's decoder: FEC off => the lazy 1+1
+	group  uint64
+	target *UDPSession // path 1
+	lis    *Listener   // paths 2, 3
+	peer   *UDPSession
+	oobMu  sync.Mutex
+	oobGot [][]byte
+	lines  []string
+	capPos int
+	feeds  int
 }
 
 func (x *frameC05) frame(rest []byte) []byte {
@@ -2139,7 +2139,10 @@ func (x *frameC05) feed(dgram, rest []byte, addr, note string) {
 	x.res.Dist["c05-class-"+cls]++
 	if after.recovered > before.recovered {
 		x.res.Dist["c05-recovered-shards"] += int(after.recovered - before.recovered)
-		x.res.Dist["c05-recovery-"+note]++
+		x.res.Dist["c05-recovery-ran-"+strings.SplitN(note, ":", 2)[0]]++
+		if strings.Contains(note, "lt2") {
+			x.res.Dist["c05-recovery-ran-with-size-field-lt2"]++
+		}
 	}
 	x.lines = append(x.lines, fmt.Sprintf("I from=%s %s -> cls=%s newdec=%d created=%d oob=%s", addr, hx(rest), cls, frameB2I(after.hasDec && !decBefore), frameB2I(created), oob))
 	// a session must not come into being for content that carries no readable conversation id
@@ -2368,6 +2371,9 @@ func (x *frameC05) recoveryGroup(addr string) {
 		idx[i], idx[k] = idx[k], idx[i]
 	}
 	note := fmt.Sprintf("recovery:%d/%d missing=%d sizefields=%s", d, p, missing, sizeChoice)
+	if strings.HasPrefix(sizeChoice, "0,") || strings.HasPrefix(sizeChoice, "1,") || strings.Contains(sizeChoice, ",0,") || strings.Contains(sizeChoice, ",1,") {
+		note += " lt2"
+	}
 	for _, i := range idx {
 		typ := uint16(typeData)
 		if i >= d {
@@ -2630,7 +2636,7 @@ func TestVerifC05Sess(t *testing.T) {
 		if r.Err != "" {
 			t.Errorf("cell %s: harness failure: %s", r.Cfg.String(), r.Err)
 		}
-		if r.Dist["c05-recovery-target-size-lt2"] > 0 && r.Dist["c05-recovered-shards"] > 0 {
+		if r.Dist["c05-recovery-ran-with-size-field-lt2"] > 0 {
 			rep.Nontrivial++
 		}
 		for k, v := range r.Dist {
@@ -2654,6 +2660,6 @@ func TestVerifC05Sess(t *testing.T) {
 		}
 	}
 	rep.Extra["cells"] = len(cfgs)
-	rep.Extra["nontrivial_rule"] = "a cell in which FEC recovery ran and at least one group was built to reconstruct a shard whose size field is 0 or 1"
+	rep.Extra["nontrivial_rule"] = "a cell in which FEC recovery ran on a group built to reconstruct a shard whose size field is 0 or 1"
 	rep.write(t, "C05sess.report.json")
 }
